@@ -141,14 +141,18 @@ func c05MatchSelector(sel *metav1.LabelSelector, lbls map[string]string) bool {
 // values
 
 var (
-	c05CPU = []string{"0", "1m", "250m", "500m", "999m", "1", "1001m", "1500m", "2", "3", "4", "7", "8"}
-	c05Mem = []string{"0", "1", "128Mi", "1Gi", "1G", "1536Mi", "2Gi", "4Gi", "8Gi", "9007199254740993"}
+	c05CPU = []string{"0", "1m", "100m", "250m", "0.5", "500m", "999m", "1", "1001m", "1.5", "1500m", "2", "3", "4", "7", "8", "16", "64"}
+	c05Mem = []string{"0", "1", "100M", "128Mi", "1Gi", "1G", "1536Mi", "1.5Gi", "2Gi", "4Gi", "8Gi", "64Gi", "9007199254740993", "4611686018427387904"}
 	c05GPU = []string{"0", "1", "2", "4"}
+	c05Ext = []string{"0", "1", "1000", "1500", "4000", "32000"}
 )
 
-const c05GPUName corev1.ResourceName = "example.com/gpu"
+const (
+	c05GPUName corev1.ResourceName = "example.com/gpu"
+	c05ExtName corev1.ResourceName = "kubernetes.io/batch-cpu"
+)
 
-var c05ResNames = []corev1.ResourceName{corev1.ResourceCPU, corev1.ResourceMemory, c05GPUName, corev1.ResourceEphemeralStorage}
+var c05ResNames = []corev1.ResourceName{corev1.ResourceCPU, corev1.ResourceMemory, c05GPUName, corev1.ResourceEphemeralStorage, c05ExtName}
 
 func c05GenQuantity(r *kit.Rand, name corev1.ResourceName) resource.Quantity {
 	switch name {
@@ -156,6 +160,8 @@ func c05GenQuantity(r *kit.Rand, name corev1.ResourceName) resource.Quantity {
 		return resource.MustParse(kit.Pick(r, c05CPU))
 	case c05GPUName:
 		return resource.MustParse(kit.Pick(r, c05GPU))
+	case c05ExtName:
+		return resource.MustParse(kit.Pick(r, c05Ext))
 	default:
 		return resource.MustParse(kit.Pick(r, c05Mem))
 	}
@@ -165,7 +171,11 @@ func c05GenQuantity(r *kit.Rand, name corev1.ResourceName) resource.Quantity {
 func c05GenRequests(r *kit.Rand, pct []int) corev1.ResourceList {
 	rl := corev1.ResourceList{}
 	for i, n := range c05ResNames {
-		if r.Pct(pct[i]) {
+		p := 8 // names beyond the given probabilities
+		if i < len(pct) {
+			p = pct[i]
+		}
+		if r.Pct(p) {
 			rl[n] = c05GenQuantity(r, n)
 		}
 	}
@@ -212,7 +222,10 @@ func c05Containers(r *kit.Rand, rl corev1.ResourceList) []corev1.Container {
 	return cs
 }
 
-// c05PodRequests: the pod's request, recomputed from the pod object (sum over regular containers).
+// c05PodRequests: the pod's request, recomputed from the pod object by the Kubernetes rule for the effective
+// request of a pod: per resource the larger of (sum over the regular containers) and (the largest init
+// container), plus the pod overhead. Restartable (sidecar) init containers and pod-level resources are not
+// generated.
 func c05PodRequests(p *corev1.Pod) corev1.ResourceList {
 	out := corev1.ResourceList{}
 	if p == nil {
@@ -225,7 +238,37 @@ func c05PodRequests(p *corev1.Pod) corev1.ResourceList {
 			out[n] = cur
 		}
 	}
+	for _, ct := range p.Spec.InitContainers {
+		for n, q := range ct.Resources.Requests {
+			if cur, ok := out[n]; !ok || q.Cmp(cur) > 0 {
+				out[n] = q.DeepCopy()
+			}
+		}
+	}
+	for n, q := range p.Spec.Overhead {
+		cur := out[n]
+		cur.Add(q)
+		out[n] = cur
+	}
 	return out
+}
+
+// c05Shape gives a pod spec, with modest weight, the shapes whose request is not the plain container sum: an
+// init container (15%) and a pod overhead (10%).
+func c05Shape(r *kit.Rand, spec *corev1.PodSpec) {
+	if r.Pct(15) {
+		rl := c05GenRequests(r, []int{60, 50, 15, 10})
+		spec.InitContainers = []corev1.Container{{Name: "init", Resources: corev1.ResourceRequirements{Requests: rl}}}
+	}
+	if r.Pct(10) {
+		spec.Overhead = corev1.ResourceList{corev1.ResourceCPU: resource.MustParse(kit.Pick(r, []string{"1m", "100m", "250m"})),
+			corev1.ResourceMemory: resource.MustParse(kit.Pick(r, []string{"1", "64Mi", "128Mi"}))}
+	}
+}
+
+// c05TemplateR: the same reserved amounts spread over one or two containers.
+func c05TemplateR(r *kit.Rand, rl corev1.ResourceList) *corev1.PodTemplateSpec {
+	return &corev1.PodTemplateSpec{Spec: corev1.PodSpec{Containers: c05Containers(r, rl)}}
 }
 
 func c05Template(rl corev1.ResourceList) *corev1.PodTemplateSpec {
@@ -330,23 +373,58 @@ func c05InnerReserved(annotations map[string]string) corev1.ResourceList {
 		return nil
 	}
 	var nr struct {
-		Resources corev1.ResourceList `json:"resources"`
+		Resources    corev1.ResourceList `json:"resources"`
+		ReservedCPUs string              `json:"reservedCPUs"`
 	}
 	if err := json.Unmarshal([]byte(s), &nr); err != nil {
 		return nil
 	}
-	return nr.Resources
+	out := nr.Resources
+	if nr.ReservedCPUs != "" { // "reserved cpus need to be reserved, such as 1-6, or 2,4,6,8": that many CPUs
+		n, ok := c05CountCPUs(nr.ReservedCPUs)
+		if !ok {
+			return nil
+		}
+		if out == nil {
+			out = corev1.ResourceList{}
+		}
+		out[corev1.ResourceCPU] = *resource.NewQuantity(int64(n), resource.DecimalSI)
+	}
+	return out
+}
+
+// c05CountCPUs counts the CPUs of a list such as "1-6" or "2,4,6,8".
+func c05CountCPUs(s string) (int, bool) {
+	seen := map[int]bool{}
+	for _, part := range strings.Split(s, ",") {
+		var a, b int
+		if n, err := fmt.Sscanf(part, "%d-%d", &a, &b); err == nil && n == 2 {
+			for x := a; x <= b; x++ {
+				seen[x] = true
+			}
+			continue
+		}
+		if _, err := fmt.Sscanf(part, "%d", &a); err != nil {
+			return 0, false
+		}
+		seen[a] = true
+	}
+	return len(seen), true
 }
 
 func c05SetInnerReserved(obj metav1.Object, rl corev1.ResourceList) {
+	c05SetInnerReservedCPUs(obj, rl, "")
+}
+
+func c05SetInnerReservedCPUs(obj metav1.Object, rl corev1.ResourceList, reservedCPUs string) {
 	a := obj.GetAnnotations()
 	if a == nil {
 		a = map[string]string{}
 	}
-	if len(rl) == 0 {
+	if len(rl) == 0 && reservedCPUs == "" {
 		delete(a, apiext.AnnotationNodeReservation)
 	} else {
-		b, _ := json.Marshal(apiext.NodeReservation{Resources: rl})
+		b, _ := json.Marshal(apiext.NodeReservation{Resources: rl, ReservedCPUs: reservedCPUs})
 		a[apiext.AnnotationNodeReservation] = string(b)
 	}
 	obj.SetAnnotations(a)
